@@ -13,6 +13,7 @@ import (
 	"fmt"
 	"os"
 	"path/filepath"
+	"runtime"
 	"sort"
 	"strings"
 	"time"
@@ -345,12 +346,16 @@ func (engine) Run(src *sim.Src, log *sim.Log, res *sim.Result) {
 		planned = []int{a, a}
 		overlayFirst = true
 	}
-	// a generation whose output is large enough to leave the formatter's fast path
+	// a generation whose output or tables are far larger than any shipped grammar's
 	if planned == nil && src.Chance(1, 30) {
+		var huge []int
 		for _, i := range heavy {
 			if strings.Contains(cfg.Pool[i].ID, "huge") {
-				planned = []int{i}
+				huge = append(huge, i)
 			}
+		}
+		if len(huge) > 0 {
+			planned = []int{huge[src.Draw(len(huge))]}
 		}
 	}
 	if planned != nil {
@@ -581,6 +586,14 @@ func explain(p *poolEntry, st *zzsim.State, w *recWriter, err error, ref *refEnt
 				p.ID, f, errText(eerr), errText(rerr), env, d)
 			return
 		}
+	}
+	if (!refHere || errText(rerr) != ref.Err) && len(hist) == 1 {
+		// no earlier generation in this process: what differs from the reference process is
+		// the process itself
+		res.Fail("C18.process", p.ID+":"+first,
+			"grammar %s: generated as the first generation of a fresh process with every map in ascending order and the clock at zero, the output differs from the same generation in another fresh process (first differing file %q, error %q vs %q); this process runs with GOMAXPROCS=%d, the reference process with the machine's default (%d CPUs): the output depends on the process's scheduling settings",
+			p.ID, first, errText(rerr), ref.Err, runtime.GOMAXPROCS(0), runtime.NumCPU())
+		return
 	}
 	if !refHere || errText(rerr) != ref.Err {
 		res.Fail("C18.history", p.ID+":"+first,
